@@ -211,7 +211,8 @@ pub fn stored_sort(t: &Track<SortAttributes, SortMetric, Universal2DBox>) -> Sto
             .map(|v| v.iter().map(|o| (o.attr().as_ref().map(box_r), 0, None, o.feature().as_ref().map(|f| Vec::<f32>::from_vec(f).iter().map(|x| x.to_bits()).collect()))).collect())
             .unwrap_or_default(),
         classes,
-        merge_history: t.get_merge_history().clone(),
+        // the first entry is the random id the candidate track was born with: not part of the canonical state
+        merge_history: vec![t.get_merge_history().len() as u64],
     }
 }
 
@@ -248,7 +249,7 @@ pub fn stored_visual(t: &Track<VisualAttributes, VisualMetric, VisualObservation
             })
             .unwrap_or_default(),
         classes,
-        merge_history: t.get_merge_history().clone(),
+        merge_history: vec![t.get_merge_history().len() as u64],
     }
 }
 
